@@ -290,8 +290,9 @@ N_Elect(n, reach) ==
                  !.role = [r \in R |-> IF ~up[r] THEN "none" ELSE IF r = n THEN "leader" ELSE "follower"],
                  !.log = [r \in R |-> IF r \in fol THEN res(r)[1] ELSE log[r]],
                  !.ec = [r \in R |-> IF r = n THEN ecn ELSE IF r \in fol THEN res(r)[2] ELSE ec[r]],
-                 !.isrOff = [isrOff EXCEPT ![n] = IF up[n] /\ n \in DOMAIN @
-                                                   THEN [@ EXCEPT ![n] = Max2(@, Newest(n))] ELSE @],
+                 \* becomeLeader: offsets learned in an earlier term are forgotten
+                 !.isrOff = [isrOff EXCEPT ![n] = IF up[n]
+                                                   THEN [x \in DOMAIN @ |-> IF x = n THEN Newest(n) ELSE -1] ELSE @],
                  !.pend = [r \in R |-> <<>>],
                  !.caught = [r \in R |-> FALSE],
                  !.taint = taint \cup UNION {res(f)[3] : f \in fol}]
